@@ -314,6 +314,7 @@ def x86_queries(db, rng=None, mode="x64"):
                 alt[i] = "mem"
                 variants.append((alt, False))
         has_vex_twin = f["prefix"] == "EVEX" and any(g["prefix"] == "VEX" for g in by_name[f["name"]])
+        has_evex_twin = f["prefix"] == "VEX" and any(g["prefix"] == "EVEX" for g in by_name[f["name"]])
         variants = [(ch_, same_, None) for ch_, same_ in variants]
         has_imm = any(c_ == "imm" and o_["immValue"] is None for o_, c_ in zip(ops, base_choice))
         if f["name"] in IMM_SWEEPS and has_imm:
@@ -331,6 +332,15 @@ def x86_queries(db, rng=None, mode="x64"):
                     settings.append(("z", "k1"))
             if has_vex_twin:
                 settings.append(("E", "-"))
+            if has_evex_twin and same in (False, True):
+                settings.append(("V", "-"))       # VEX forced: prefer-EVEX instructions (vpmadd52*, vpdpbusd ...) emit their VEX form
+            if immv is None and same is False and all(c_ != "mem" for c_ in choice):
+                # embedded rounding / suppress-all-exceptions (register forms only), every mode, with every masking the form admits
+                rnd = ([("e",), ("e", "d"), ("e", "u"), ("e", "o")] if f["er"] else []) + ([("s",)] if f["sae"] else [])
+                masks = [("", "-")] + ([("", "k1")] if f["kmask"] else []) + ([("z", "k1")] if f["kmask"] and f["zmask"] else [])
+                for r_ in rnd:
+                    for mz, ex in masks:
+                        settings.append(("".join(r_) + mz, ex))
             if immv is not None:
                 # sweeps: unmasked everywhere, zeroing on the 128-bit form; merge-masking re-adds the read (judged with a few values)
                 settings = [("-", "-")]
@@ -364,7 +374,8 @@ def x86_queries(db, rng=None, mode="x64"):
                         kept = [i for i, o in enumerate(ops) if with_impl or not o["implicit"]]
                         for d, i in zip(dbops, kept):
                             if d["kind"] == 1:
-                                d["memAlt"] = sibling_mem_sizes(f, by_name[f["name"]], choice, i, mode)
+                                # {er}/{sae} exist in register forms only (EVEX.b means broadcast with a memory operand)
+                                d["memAlt"] = [] if ("e" in opts or "s" in opts) else sibling_mem_sizes(f, by_name[f["name"]], choice, i, mode)
                     name = f["name"]
                     line = "x %s %s %s %s %s" % (mode, name, opts, extra, " ".join(toks))
                     rule = 0
